@@ -118,7 +118,7 @@ QVals == {S(<<>>), S(<<97, 32, 98>>), S(<<38, 61>>)}
 QObjs(u) == ObjsOver(QVals \cup {VArr(<<a, b>>) : a \in QVals, b \in QVals})
 ValSerCases(u) ==
     {<<f, v>> : f \in {"json", "jq", "jsonl", "yaml", "toml", "json_i", "jq_i"}, v \in JsonVals(u)}
-    \cup {<<"csv", v>> : v \in CsvVals(u)} \cup {<<"xml", v>> : v \in XmlVals(u)} \cup {<<"xmla", v>> : v \in XArr1(u)}
+    \cup {<<"csv", v>> : v \in CsvVals(u)} \cup {<<"xml", v>> : v \in XmlVals(u)} \cup {<<"xmla", v>> : v \in XArr1(u)} \cup {<<"xmlseq", v>> : v \in XArr1(u)}
     \cup {<<"urlquery", v>> : v \in QObjs(u)}
 ValCases(u) == {p \in ValSerCases(u) : InDomain(p[1], p[2])}
 ValJob(p) == [k |-> "ser", f |-> p[1], v |-> p[2]]
